@@ -622,18 +622,58 @@ def check_invariants(ctx, rep, only=None):
             rep.violates(RULE + '.inv', init, 'def __init__', 'the constructor does not check validity by default')
     if only is not None and 'dfa.DFA' not in only:
         return n
-    # DFA._is_total
+    # DFA._is_total: some (q, a) in Q x Sigma without a transition <=> False
     f = ctx.prog.func('dfa.DFA._is_total')
-    fx = ctx.facts(f)
-    rf = [r for r in walk_no_nested(f.node) if isinstance(r, ast.Return) and isinstance(r.value, ast.Constant) and r.value.value is False]
-    rt = [r for r in walk_no_nested(f.node) if isinstance(r, ast.Return) and isinstance(r.value, ast.Constant) and r.value.value is True]
-    loops = [u(x.iter) for x in walk_no_nested(f.node) if isinstance(x, ast.For)]
-    ok = len(rf) == 1 and len(rt) == 1 and any(a[0] == 'in' and a[3] is False and a[1].replace(' ', '') == '(q,a)' for a in fx.guard_atoms(fx.cfg.n_of(rf[0]))) \
-        and set(loops) == {'Q', 'Sigma'} and not fx.guard_atoms(fx.cfg.n_of(rt[0]))
+    alias = {}
+    units = [f] + list(f.nested.values())
+    for g in units:
+        for st in walk_no_nested(g.node):
+            if isinstance(st, ast.Assign) and len(st.targets) == 1 and isinstance(st.targets[0], ast.Name) and isinstance(st.value, ast.Attribute) and u(st.value.value) == 'self':
+                alias[st.targets[0].id] = 'self.' + st.value.attr
+
+    def canon(e):
+        t = u(e)
+        return alias.get(t, t)
+    sources = {}          # loop variable -> canonical collection it ranges over
+    for g in units:
+        for x in ast.walk(g.node):
+            if isinstance(x, ast.For) and isinstance(x.target, ast.Name):
+                sources[x.target.id] = canon(x.iter)
+            if isinstance(x, ast.comprehension) and isinstance(x.target, ast.Name):
+                sources[x.target.id] = canon(x.iter)
+            if isinstance(x, (ast.For, ast.comprehension)) and not isinstance(x.target, ast.Name):
+                sources['<tuple:{}>'.format(u(x.target))] = canon(x.iter.func.value) if isinstance(x.iter, ast.Call) and isinstance(x.iter.func, ast.Attribute) and x.iter.func.attr in ('items', 'keys', 'values') else canon(x.iter)
+    # a nested helper called with the loop variable: its parameter ranges over the same collection
+    for g in f.nested.values():
+        for c in ast.walk(f.node):
+            if isinstance(c, ast.Call) and isinstance(c.func, ast.Name) and c.func.id == g.name and len(c.args) == len(g.params):
+                for p0, a0 in zip(g.params, c.args):
+                    if isinstance(a0, ast.Name) and a0.id in sources:
+                        sources[p0] = sources[a0.id]
+    tests = []
+    for g in units:
+        for x in ast.walk(g.node):
+            if isinstance(x, ast.Compare) and len(x.ops) == 1 and isinstance(x.ops[0], (ast.In, ast.NotIn)) and isinstance(x.left, ast.Tuple) and len(x.left.elts) == 2 \
+                    and all(isinstance(e, ast.Name) for e in x.left.elts) and canon(x.comparators[0]) == 'self.delta':
+                tests.append(x)
+    n += 1
+    ok = False
+    partial = None
+    for t in tests:
+        srcs = [sources.get(e.id) for e in t.left.elts]
+        if srcs == ['self.Q', 'self.Sigma']:
+            ok = True
+        else:
+            partial = srcs
+    iter_delta = any(v == 'self.delta' for v in sources.values())
+    over_Q = any(v == 'self.Q' for v in sources.values())
     if ok:
-        rep.holds(RULE + '.inv', f, 'def _is_total', 'False exactly when some (q, a) in Q x Sigma has no transition')
+        rep.holds(RULE + '.inv', f, 'def _is_total', 'totality ranges over every state of Q and every symbol of Sigma and tests (q, a) against delta')
+    elif (iter_delta and not over_Q) or partial is not None:
+        rep.violates(RULE + '.inv', f, 'def _is_total', 'totality must be: for all q in Q, a in Sigma: (q, a) in delta -- this version ranges over {} and never over Q: a state without any outgoing transition is not noticed'.format(
+            'the keys of delta' if iter_delta else partial))
     else:
-        rep.violates(RULE + '.inv', f, 'def _is_total', 'totality must be: for all q in Q, a in Sigma: (q, a) in delta')
+        rep.undecided(RULE + '.inv', f, 'def _is_total', 'form of the totality test not recognised')
     return n
 
 
